@@ -287,6 +287,12 @@ Proof. unfold denote, wf. destruct (wfb p); [reflexivity | discriminate]. Qed.
 Lemma wf_denote p : wf p -> exists L, denote p = Some L.
 Proof. unfold denote, wf. intros ->. eexists; reflexivity. Qed.
 
+Lemma Some_inj {A} (a b : A) : Some a = Some b -> a = b.
+Proof. intro H. injection H as H. exact H. Qed.
+
+Lemma denote_eq p : wf p -> denote p = Some (map (decode (N.ones (bits p))) (slots p)).
+Proof. unfold denote, wf. intros ->. reflexivity. Qed.
+
 Lemma denote_repr p L :
   denote p = Some L ->
   exists l, okbl (bits p) l /\ p = pk (bits p) l /\ L = map (decode (N.ones (bits p))) l.
@@ -294,5 +300,1528 @@ Proof.
   intro H. pose proof (denote_wf p L H) as Hw.
   destruct (wf_repr p Hw) as [Hok Hp]. exists (slots p).
   split; [assumption|]. split; [assumption|].
-  unfold denote in H. rewrite Hw in H. injection H as <-. reflexivity.
+  rewrite (denote_eq p Hw) in H. apply Some_inj in H. symmetry. exact H.
 Qed.
+
+(** ** Abstract sequence operations (generic in the element type) *)
+Fixpoint olast {A : Type} (l : list A) : option A :=
+  match l with
+  | [] => None
+  | x :: r => match r with [] => Some x | _ :: _ => olast r end
+  end.
+
+Lemma olast_app {A} (l : list A) x : olast (l ++ [x]) = Some x.
+Proof.
+  induction l as [|y r IH]; [reflexivity|].
+  cbn [app olast]. destruct (r ++ [x]) eqn:E; [destruct r; discriminate | exact IH].
+Qed.
+
+Lemma olast_nth {A} (l : list A) : olast l = nth_error l (length l - 1).
+Proof.
+  induction l as [|y r IH]; [reflexivity|].
+  cbn [olast length]. destruct r as [|z r']; [reflexivity|].
+  rewrite IH. cbn [length]. replace (S (S (length r')) - 1)%nat with (S (length r')) by lia.
+  cbn [nth_error]. replace (S (length r') - 1)%nat with (length r') by lia. reflexivity.
+Qed.
+
+Lemma olast_map {A B} (f : A -> B) l : olast (map f l) = option_map f (olast l).
+Proof.
+  induction l as [|y r IH]; [reflexivity|].
+  cbn [map olast]. destruct r as [|z r']; [reflexivity|]. exact IH.
+Qed.
+
+Definition is_nil {A : Type} (l : list A) : bool := match l with [] => true | _ => false end.
+
+Section Generic.
+  Context {A : Type} (isE isD : A -> bool).   (* "is epsilon", "is end of input" *)
+
+  Definition g_is_eps (l : list A) : bool := match l with [x] => isE x | _ => false end.
+  Definition g_last_end (l : list A) : bool :=
+    match olast l with Some x => isD x | None => false end.
+  Definition g_complete (k : N) (l : list A) : bool :=
+    negb (g_is_eps l) && ((k <=? lenN l) || g_last_end l).
+  (** [None] = the Rust [Err] (10 elements already) *)
+  Definition g_push (l : list A) (x : A) : option (list A) :=
+    if MAX_K <=? lenN l then None
+    else if g_last_end l then Some l else Some (l ++ [x]).
+  Fixpoint g_extend (l : list A) (xs : list A) : list A :=
+    match xs with
+    | [] => l
+    | x :: r => g_extend (match g_push l x with Some l' => l' | None => l end) r
+    end.
+  Definition g_of (k : N) (l : list A) : list A := firstn (N.to_nat (N.min (lenN l) k)) l.
+  (** k-concatenation exactly as the code performs it *)
+  Definition g_concat (k : N) (l1 l2 : list A) : list A :=
+    if g_is_eps l2 || is_nil l2 then l1
+    else
+      let l1' := if g_is_eps l1 then [] else l1 in
+      if g_complete k l1' then l1'
+      else l1' ++ firstn (N.to_nat (N.min (k - N.min (lenN l1') k) (N.min (lenN l2) k))) l2.
+End Generic.
+
+Section GenericMap.
+  Context {A B : Type} (f : A -> B) (isE isD : A -> bool) (isE' isD' : B -> bool).
+  Hypothesis HE : forall x, isE' (f x) = isE x.
+  Hypothesis HD : forall x, isD' (f x) = isD x.
+
+  Lemma lenN_map (l : list A) : lenN (map f l) = lenN l.
+  Proof. unfold lenN. rewrite map_length. reflexivity. Qed.
+
+  Lemma g_is_eps_map l : g_is_eps isE' (map f l) = g_is_eps isE l.
+  Proof. destruct l as [|x [|y r]]; cbn [map g_is_eps]; auto. Qed.
+
+  Lemma g_last_end_map l : g_last_end isD' (map f l) = g_last_end isD l.
+  Proof. unfold g_last_end. rewrite olast_map. destruct (olast l); cbn [option_map]; auto. Qed.
+
+  Lemma g_complete_map k l : g_complete isE' isD' k (map f l) = g_complete isE isD k l.
+  Proof. unfold g_complete. rewrite g_is_eps_map, g_last_end_map, lenN_map. reflexivity. Qed.
+
+  Lemma g_push_map l x :
+    g_push isD' (map f l) (f x) = option_map (map f) (g_push isD l x).
+  Proof.
+    unfold g_push. rewrite lenN_map, g_last_end_map.
+    destruct (MAX_K <=? lenN l); [reflexivity|].
+    destruct (g_last_end isD l); cbn [option_map]; [reflexivity|].
+    rewrite map_app. reflexivity.
+  Qed.
+
+  Lemma g_extend_map xs : forall l,
+    g_extend isD' (map f l) (map f xs) = map f (g_extend isD l xs).
+  Proof.
+    induction xs as [|x r IH]; intro l; [reflexivity|].
+    cbn [map g_extend]. rewrite g_push_map.
+    destruct (g_push isD l x) as [l'|]; cbn [option_map]; apply IH.
+  Qed.
+
+  Lemma g_of_map k l : g_of k (map f l) = map f (g_of k l).
+  Proof. unfold g_of. rewrite lenN_map, firstn_map. reflexivity. Qed.
+
+  Lemma g_concat_map k l1 l2 :
+    g_concat isE' isD' k (map f l1) (map f l2) = map f (g_concat isE isD k l1 l2).
+  Proof.
+    unfold g_concat. rewrite !g_is_eps_map.
+    replace (is_nil (map f l2)) with (is_nil l2) by (destruct l2; reflexivity).
+    destruct (g_is_eps isE l2 || is_nil l2); [reflexivity|].
+    destruct (g_is_eps isE l1).
+    - change (@nil B) with (map f []). rewrite g_complete_map.
+      destruct (g_complete isE isD k []); [reflexivity|].
+      rewrite !lenN_map, map_app, firstn_map. reflexivity.
+    - rewrite g_complete_map.
+      destruct (g_complete isE isD k l1); [reflexivity|].
+      rewrite !lenN_map, map_app, firstn_map. reflexivity.
+  Qed.
+End GenericMap.
+
+(** the two instances: terms and raw slot values *)
+Definition t_isE (x : term) : bool := match x with Eps => true | _ => false end.
+Definition t_isD (x : term) : bool := match x with End => true | _ => false end.
+Definition d_isE (mk d : N) : bool := d =? mk.
+Definition d_isD (d : N) : bool := d =? 0.
+
+Definition a_is_eps := g_is_eps t_isE.
+Definition a_last_end := g_last_end t_isD.
+Definition a_complete := g_complete t_isE t_isD.
+Definition a_push := g_push t_isD.
+Definition a_extend := g_extend t_isD.
+Definition a_of := @g_of term.
+Definition a_concat := g_concat t_isE t_isD.
+
+Lemma decode_isE mk d : t_isE (decode mk d) = d_isE mk d.
+Proof.
+  unfold decode, d_isE. destruct (d =? mk); [reflexivity|]. destruct (d =? 0); reflexivity.
+Qed.
+
+Lemma decode_isD mk d : mk <> 0 -> t_isD (decode mk d) = d_isD d.
+Proof.
+  intro H. unfold decode, d_isD. destruct (N.eqb_spec d mk) as [E|E].
+  - subst d. destruct (N.eqb_spec mk 0); [contradiction | reflexivity].
+  - destruct (d =? 0); reflexivity.
+Qed.
+
+Lemma decode_inj mk d1 d2 : mk <> 0 -> decode mk d1 = decode mk d2 -> d1 = d2.
+Proof.
+  intro H. unfold decode.
+  destruct (N.eqb_spec d1 mk) as [E1|E1]; destruct (N.eqb_spec d2 mk) as [E2|E2];
+  destruct (N.eqb_spec d1 0) as [Z1|Z1]; destruct (N.eqb_spec d2 0) as [Z2|Z2];
+    intro Hd; try discriminate; try congruence.
+Qed.
+
+Lemma map_decode_inj mk l1 l2 :
+  mk <> 0 -> map (decode mk) l1 = map (decode mk) l2 -> l1 = l2.
+Proof.
+  intro H. revert l2. induction l1 as [|d r IH]; intros [|e s] Hm; try discriminate.
+  - reflexivity.
+  - cbn [map] in Hm. injection Hm as H1 H2. f_equal; [eapply decode_inj; eassumption | auto].
+Qed.
+
+Lemma ones_pos b : 1 <= b -> N.ones b <> 0.
+Proof.
+  intro H. rewrite N.ones_equiv. pose proof (N.pow_le_mono_r 2 1 b). rewrite N.pow_1_r in H0.
+  pose proof (pow2_pos b). lia.
+Qed.
+
+Lemma ones_lt b : N.ones b < 2 ^ b.
+Proof. rewrite N.ones_equiv. pose proof (pow2_pos b). lia. Qed.
+
+(** what [get]/[iter]/[last] report for a slot value *)
+Definition to16 (b d : N) : N := if d =? N.ones b then EPS else d.
+
+Lemma to16_enc16 b d : to16 b d = enc16 (decode (N.ones b) d).
+Proof.
+  unfold to16, decode. destruct (d =? N.ones b); [reflexivity|].
+  destruct (N.eqb_spec d 0) as [E|E]; [subst; reflexivity | reflexivity].
+Qed.
+
+Lemma to16_zero b d : 1 <= b -> (to16 b d =? EOI) = d_isD d.
+Proof.
+  intro H. unfold to16, d_isD, EOI. destruct (N.eqb_spec d (N.ones b)) as [E|E]; [|reflexivity].
+  subst d. pose proof (ones_pos b H). destruct (N.eqb_spec (N.ones b) 0); [contradiction|].
+  reflexivity.
+Qed.
+
+Lemma pow_le_16 b : b <= 12 -> 2 ^ b <= 2 ^ 16.
+Proof. intro H. apply N.pow_le_mono_r; [discriminate | lia]. Qed.
+
+Lemma to16_u16 b d : b <= 12 -> d < 2 ^ b ->
+  N.land (if d =? N.ones b then EPS else d) U16_MAX = to16 b d.
+Proof.
+  intros Hb Hd. unfold to16. destruct (d =? N.ones b); [reflexivity|].
+  change U16_MAX with (N.ones 16). apply lt_pow2_land.
+  pose proof (pow_le_16 b Hb). lia.
+Qed.
+
+(** ** The accessors on canonical forms *)
+Lemma ltb_true a b : a < b -> (a <? b) = true.
+Proof. intro H. apply N.ltb_lt; assumption. Qed.
+Lemma ltb_false a b : b <= a -> (a <? b) = false.
+Proof. intro H. apply N.ltb_ge; assumption. Qed.
+Lemma leb_true a b : a <= b -> (a <=? b) = true.
+Proof. intro H. apply N.leb_le; assumption. Qed.
+Lemma leb_false a b : b < a -> (a <=? b) = false.
+Proof. intro H. apply N.leb_gt; assumption. Qed.
+
+Lemma digit_pk b l i d : okbl b l -> nth_error l i = Some d ->
+  N.land (N.shiftr (tpack b l) (N.of_nat i * b)) (N.ones b) = d.
+Proof.
+  intros H Hn. rewrite tpack_payH by assumption.
+  apply (digit_payH b l _ i d); [apply H | assumption].
+Qed.
+
+Lemma get_pk b l i : okbl b l ->
+  get (pk b l) i = Ok (option_map (to16 b) (nth_error l (N.to_nat i))).
+Proof.
+  intro H. unfold get. rewrite next_index_pk, bits_pk, mask_pk by assumption.
+  pose proof (okbl_len b l H) as Hl. pose proof H as (Hb & _ & Hs).
+  destruct (N.ltb_spec i (lenN l)) as [Hi|Hi].
+  - unfold shr128. rewrite ltb_true by nia. cbn [bind].
+    destruct (nth_error l (N.to_nat i)) as [d|] eqn:En.
+    + cbn [option_map pk t].
+      assert (Hd : N.land (N.shiftr (tpack b l) (i * b)) (N.ones b) = d).
+      { rewrite <- (Nnat.N2Nat.id i). apply digit_pk; assumption. }
+      cbv zeta. rewrite Hd.
+      rewrite to16_u16; [reflexivity | lia |].
+      apply nth_error_In in En. unfold small in Hs. rewrite Forall_forall in Hs. auto.
+    + apply nth_error_None in En. unfold lenN in Hi. lia.
+  - assert (En : nth_error l (N.to_nat i) = None).
+    { apply nth_error_None. unfold lenN in Hi. lia. }
+    rewrite En. reflexivity.
+Qed.
+
+Lemma lenN_0 {A} (l : list A) : lenN l = 0 -> l = [].
+Proof. destruct l; [reflexivity|]. rewrite lenN_cons. lia. Qed.
+
+Lemma last_pk b l : okbl b l -> last (pk b l) = Ok (option_map (to16 b) (olast l)).
+Proof.
+  intro H. unfold last, is_empty. rewrite next_index_pk by assumption.
+  destruct (N.eqb_spec (lenN l) 0) as [E|E].
+  - apply lenN_0 in E. subst l. reflexivity.
+  - rewrite get_pk by assumption. rewrite olast_nth. unfold lenN.
+    replace (N.to_nat (N.of_nat (length l) - 1)) with (length l - 1)%nat by lia. reflexivity.
+Qed.
+
+Lemma is_eps_pk b l : okbl b l -> is_eps (pk b l) = g_is_eps (d_isE (N.ones b)) l.
+Proof.
+  intro H. unfold is_eps. rewrite next_index_pk, mask_pk by assumption.
+  destruct l as [|d [|e r]].
+  - reflexivity.
+  - change (lenN [d]) with 1. cbn [N.eqb Pos.eqb negb g_is_eps pk t].
+    pose proof (digit_pk b [d] 0 d H eq_refl) as Hd.
+    cbn [N.of_nat] in Hd. rewrite N.mul_0_l, N.shiftr_0_r in Hd. rewrite Hd. reflexivity.
+  - rewrite !lenN_cons. cbn [g_is_eps].
+    destruct (N.eqb_spec (lenN r + 1 + 1) 1); [lia | reflexivity].
+Qed.
+
+Lemma is_k_complete_pk b l k : okbl b l ->
+  is_k_complete (pk b l) k = Ok (g_complete (d_isE (N.ones b)) d_isD k l).
+Proof.
+  intro H. unfold is_k_complete, g_complete.
+  rewrite is_eps_pk, len_pk, last_pk by assumption.
+  destruct (g_is_eps (d_isE (N.ones b)) l); [reflexivity|]. cbn [negb andb].
+  destruct (k <=? lenN l); [reflexivity|]. cbn [orb bind].
+  unfold g_last_end. destruct (olast l) as [d|]; cbn [option_map]; [|reflexivity].
+  rewrite to16_zero by apply H. reflexivity.
+Qed.
+
+Lemma k_len_pk b l k : okbl b l -> k_len (pk b l) k = N.min (lenN l) k.
+Proof. intro H. unfold k_len. rewrite len_pk by assumption. reflexivity. Qed.
+
+Lemma okbl_nil b : 1 <= b <= 12 -> okbl b [].
+Proof.
+  intro H. split; [exact H|]. split; [cbn [length]; lia | constructor].
+Qed.
+
+Lemma Packed0 : Packed 0 = Packed (mk3 0 0 0).
+Proof. reflexivity. Qed.
+
+Lemma pk_nil b : pk b [] = Packed (mk3 0 0 b).
+Proof. reflexivity. Qed.
+
+Lemma set_bits_fresh dbg b : 1 <= b <= 12 -> set_bits dbg (Packed 0) b = Ok (pk b []).
+Proof.
+  intro H. rewrite Packed0, pk_nil. apply set_bits_mk3; try lia; apply pow2_pos.
+Qed.
+
+Lemma clear_pk dbg b l : okbl b l -> clear dbg (pk b l) = Ok (pk b []).
+Proof.
+  intro H. unfold clear. rewrite bits_pk by assumption.
+  rewrite set_bits_fresh by apply H. cbn [bind].
+  rewrite bits_pk by (apply okbl_nil; apply H).
+  destruct (N.eqb_spec b 0) as [E|E]; [destruct H as ((H1 & _) & _); lia|].
+  cbn [negb]. rewrite dassert_true. reflexivity.
+Qed.
+
+(** ** [new], and why epsilon can never collide with a terminal *)
+Lemma new_ok dbg m : m <= 4094 -> new dbg m = Ok (pk (N.log2 (m + 1) + 1) []).
+Proof.
+  intro H. unfold new, USIZE_LIMIT.
+  rewrite leb_false by (change (2 ^ 64) with 18446744073709551616; lia).
+  assert (Hlog : N.log2 (m + 1) < 12).
+  { apply N.log2_lt_pow2; [lia|]. change (2 ^ 12) with 4096. lia. }
+  rewrite MAX_BITS_eq, ltb_false by lia. apply set_bits_fresh. lia.
+Qed.
+
+Lemma new_panics dbg m : 4095 <= m -> new dbg m = Panic.
+Proof.
+  intro H. unfold new. destruct (USIZE_LIMIT <=? m + 1); [reflexivity|].
+  assert (Hlog : 12 <= N.log2 (m + 1)).
+  { apply N.log2_le_pow2; [lia|]. change (2 ^ 12) with 4096. lia. }
+  rewrite MAX_BITS_eq, ltb_true by lia. reflexivity.
+Qed.
+
+Lemma new_bits_bound m : m + 1 < 2 ^ (N.log2 (m + 1) + 1) /\ 2 ^ N.log2 (m + 1) <= m + 1.
+Proof.
+  assert (H0 : 0 < m + 1) by lia.
+  pose proof (N.log2_spec (m + 1) H0) as [H1 H2]. rewrite <- N.add_1_r in H2.
+  split; assumption.
+Qed.
+
+(** ** Writing a slot at the end: [set], [inc_index], [push], [eps], [end], [extend] *)
+Lemma shl128_ok x n : n < 128 -> shl128 x n = Ok (shl_trunc x n).
+Proof. intro H. unfold shl128. rewrite ltb_true by assumption. reflexivity. Qed.
+
+Lemma slot_lt b n v : v < 2 ^ b -> (n + 1) * b <= 120 -> v * 2 ^ (n * b) < 2 ^ 120.
+Proof.
+  intros Hv Hn. apply N.lt_le_trans with (2 ^ b * 2 ^ (n * b)).
+  - apply N.mul_lt_mono_pos_r; [apply pow2_pos | assumption].
+  - rewrite <- N.pow_add_r. apply N.pow_le_mono_r; [discriminate | lia].
+Qed.
+
+Lemma lt120_128 x : x < 2 ^ 120 -> x < 2 ^ 128.
+Proof. intro H. rewrite p128. lia. Qed.
+
+Lemma pay_single b d : pay b [d] = d.
+Proof. unfold pay. cbn [payH]. lia. Qed.
+
+Lemma land_ones_lt tm b : N.land tm (N.ones b) < 2 ^ b.
+Proof. rewrite N.land_comm. apply land_lt_pow2, ones_lt. Qed.
+
+Lemma ones_land_u16 b : b <= 12 -> N.land (N.ones b) U16_MAX = N.ones b.
+Proof.
+  intro H. change U16_MAX with (N.ones 16). apply lt_pow2_land.
+  pose proof (ones_lt b). pose proof (pow_le_16 b H). lia.
+Qed.
+
+Lemma ones_le_4095 b : b <= 12 -> N.ones b <= 4095.
+Proof.
+  intro H. pose proof (ones_lt b). pose proof (N.pow_le_mono_r 2 b 12).
+  change (2 ^ 12) with 4096 in *. lia.
+Qed.
+
+Definition tm_ok (b tm : N) : Prop := tm <= N.ones b \/ tm = EPS.
+
+Lemma tm_ok_not_invalid b tm : b <= 12 -> tm_ok b tm -> (tm =? INVALID) = false.
+Proof.
+  intros Hb [H|H]; apply N.eqb_neq; unfold INVALID.
+  - pose proof (ones_le_4095 b Hb). lia.
+  - subst tm. discriminate.
+Qed.
+
+Lemma set_end_pk dbg b l tm :
+  okbl b l -> lenN l < 10 -> tm_ok b tm ->
+  set dbg (pk b l) (lenN l) tm =
+  Ok (Packed (mk3 (pay b (l ++ [N.land tm (N.ones b)])) (lenN l) b)).
+Proof.
+  intros H Hl Htm. pose proof H as (Hb & _ & Hs).
+  pose proof (okbl_pay_lt b l H) as HP. pose proof (okbl_n16 b l H) as Hn16.
+  pose proof (okbl_b16 b l H) as Hb16.
+  unfold set. rewrite mask_pk, bits_pk by assumption.
+  rewrite ones_land_u16 by lia.
+  assert (A1 : (tm <=? N.ones b) || (tm =? EPS) = true).
+  { destruct Htm as [Ht|Ht].
+    - rewrite leb_true by assumption. reflexivity.
+    - subst tm. rewrite N.eqb_refl. apply orb_true_r. }
+  rewrite A1, dassert_true. cbn [bind].
+  rewrite (tm_ok_not_invalid b tm) by (try assumption; lia). cbn [negb].
+  rewrite dassert_true. cbn [bind].
+  assert (Hsp : (lenN l + 1) * b <= 120) by nia.
+  rewrite !shl128_ok by nia. cbn [bind].
+  set (d := N.land tm (N.ones b)).
+  assert (Hd : d < 2 ^ b) by apply land_ones_lt.
+  rewrite (shl_trunc_small d) by (apply lt120_128, slot_lt; assumption).
+  rewrite (shl_trunc_small (N.ones b))
+    by (apply lt120_128, slot_lt; [apply ones_lt | assumption]).
+  cbn [pk t]. unfold tpack. f_equal. f_equal.
+  rewrite mk3_land_not
+    by first [assumption | apply slot_lt; [apply ones_lt | assumption]].
+  rewrite <- (N.shiftl_mul_pow2 (N.ones b)).
+  rewrite ldiff_shiftl_high by (apply pay_lt; assumption).
+  rewrite mk3_lor by first [assumption | apply slot_lt; assumption].
+  f_equal. rewrite <- (N.shiftl_mul_pow2 d).
+  rewrite lor_shiftl_add by (apply pay_lt; assumption).
+  rewrite pay_app, pay_single. reflexivity.
+Qed.
+
+Lemma inc_index_mk3 dbg P n b :
+  P < 2 ^ 120 -> n < 10 -> b < 16 ->
+  inc_index dbg (Packed (mk3 P n b)) = Ok (Packed (mk3 P (n + 1) b)).
+Proof.
+  intros HP Hn Hb. unfold inc_index. rewrite next_index_mk3 by (try assumption; lia).
+  unfold MAX_K. rewrite leb_true by lia. rewrite dassert_true. cbn [bind]. f_equal.
+  apply (set_next_index_mk3 P n b (n + 1)); try assumption; lia.
+Qed.
+
+Lemma okbl_snoc b l d : okbl b l -> lenN l < 10 -> d < 2 ^ b -> okbl b (l ++ [d]).
+Proof.
+  intros (Hb & Hl & Hs) Hn Hd. split; [assumption|]. split.
+  - rewrite app_length. cbn [length]. unfold lenN in Hn. lia.
+  - apply small_app; [assumption|]. constructor; [assumption | constructor].
+Qed.
+
+Lemma pk_snoc b l d n : n = lenN l + 1 -> Packed (mk3 (pay b (l ++ [d])) n b) = pk b (l ++ [d]).
+Proof. intros ->. unfold pk, tpack. rewrite lenN_app. reflexivity. Qed.
+
+Lemma push_body_pk dbg b l tm :
+  okbl b l -> lenN l < 10 -> tm_ok b tm ->
+  (do _ <- dassert dbg (negb (tm =? INVALID));
+   do p1 <- set dbg (pk b l) (lenN l) tm;
+   do p2 <- inc_index dbg p1;
+   Ok (Some p2)) = Ok (Some (pk b (l ++ [N.land tm (N.ones b)]))).
+Proof.
+  intros H Hl Htm. pose proof H as (Hb & _ & _).
+  rewrite (tm_ok_not_invalid b tm) by (try assumption; lia). cbn [negb].
+  rewrite dassert_true. cbn [bind].
+  rewrite set_end_pk by assumption. cbn [bind].
+  assert (Hok : okbl b (l ++ [N.land tm (N.ones b)])).
+  { apply okbl_snoc; try assumption. apply land_ones_lt. }
+  rewrite inc_index_mk3;
+    [| apply (okbl_pay_lt _ _ Hok) | assumption | apply (okbl_b16 b l H)].
+  cbn [bind]. rewrite (pk_snoc b l _ (lenN l + 1)) by reflexivity. reflexivity.
+Qed.
+
+Lemma push_pk dbg b l tm :
+  okbl b l -> tm_ok b tm ->
+  push dbg (pk b l) tm = Ok (option_map (pk b) (g_push d_isD l (N.land tm (N.ones b)))).
+Proof.
+  intros H Htm. unfold push, g_push. rewrite next_index_pk by assumption.
+  destruct (N.leb_spec MAX_K (lenN l)) as [Hl|Hl]; [reflexivity|]. unfold MAX_K in Hl.
+  rewrite last_pk by assumption. cbn [bind]. unfold g_last_end.
+  destruct (olast l) as [d|]; cbn [option_map].
+  - pose proof (to16_zero b d ltac:(apply H)) as Hz. unfold EOI in Hz.
+    destruct (to16 b d) as [|q] eqn:E.
+    + rewrite <- Hz. reflexivity.
+    + rewrite <- Hz. cbn [N.eqb option_map]. apply push_body_pk; assumption.
+  - apply push_body_pk; assumption.
+Qed.
+
+Lemma g_push_okbl b l d l' :
+  okbl b l -> d < 2 ^ b -> g_push d_isD l d = Some l' -> okbl b l'.
+Proof.
+  intros H Hd. unfold g_push, MAX_K.
+  destruct (N.leb_spec 10 (lenN l)) as [Hl|Hl]; [discriminate|].
+  destruct (g_last_end d_isD l); intro E; apply Some_inj in E; subst l'.
+  - assumption.
+  - apply okbl_snoc; assumption.
+Qed.
+
+Lemma extend_pk dbg b ts : forall l,
+  okbl b l -> Forall (tm_ok b) ts ->
+  extend dbg (pk b l) ts =
+  Ok (pk b (g_extend d_isD l (map (fun tm => N.land tm (N.ones b)) ts))).
+Proof.
+  induction ts as [|x r IH]; intros l H Hts; [reflexivity|].
+  inversion Hts as [|? ? Hx Hr]; subst.
+  cbn [extend map g_extend]. rewrite push_pk by assumption. cbn [bind].
+  destruct (g_push d_isD l (N.land x (N.ones b))) as [l'|] eqn:E; cbn [option_map].
+  - apply IH; [|assumption]. eapply g_push_okbl; [exact H | apply land_ones_lt | exact E].
+  - apply IH; assumption.
+Qed.
+
+Lemma land_eps b : b <= 12 -> N.land EPS (N.ones b) = N.ones b.
+Proof. intro H. rewrite N.land_comm. apply (ones_land_u16 b H). Qed.
+
+Lemma width_ok m : m <= 4094 -> 1 <= N.log2 (m + 1) + 1 <= 12.
+Proof.
+  intro H. assert (Hlog : N.log2 (m + 1) < 12).
+  { apply N.log2_lt_pow2; [lia|]. change (2 ^ 12) with 4096. lia. }
+  lia.
+Qed.
+
+Lemma eps_pk dbg m : m <= 4094 ->
+  eps dbg m = Ok (pk (N.log2 (m + 1) + 1) [N.ones (N.log2 (m + 1) + 1)]).
+Proof.
+  intro H. pose proof (width_ok m H) as Hb. set (b := N.log2 (m + 1) + 1) in *.
+  unfold eps. rewrite new_ok by assumption. fold b. cbn [bind].
+  pose proof (okbl_nil b Hb) as Hnil.
+  assert (Hset := set_end_pk dbg b [] EPS Hnil).
+  change (lenN (@nil N)) with 0 in Hset.
+  rewrite Hset; [| reflexivity | right; reflexivity].
+  cbn [bind app]. rewrite land_eps by lia.
+  assert (Hok : okbl b [N.ones b]).
+  { apply (okbl_snoc b [] (N.ones b) Hnil); [reflexivity | apply ones_lt]. }
+  rewrite set_next_index_mk3; try (reflexivity || lia).
+  apply (okbl_pay_lt _ _ Hok).
+Qed.
+
+Lemma pay_zero b : pay b [0] = 0.
+Proof. apply pay_single. Qed.
+
+Lemma end_pk dbg m : m <= 4094 -> end_ dbg m = Ok (pk (N.log2 (m + 1) + 1) [0]).
+Proof.
+  intro H. pose proof (width_ok m H) as Hb. set (b := N.log2 (m + 1) + 1) in *.
+  unfold end_. rewrite new_ok by assumption. fold b. cbn [bind].
+  rewrite pk_nil. rewrite set_next_index_mk3 by first [lia | apply pow2_pos].
+  unfold pk, tpack. rewrite pay_zero. reflexivity.
+Qed.
+
+(** ** [k_concat], [of], [iter], [cmp] on canonical forms *)
+Lemma not_shl_ones128 s : s <= 128 -> not128 (shl_trunc U128_MAX s) = N.ones s.
+Proof.
+  intro H. unfold not128, shl_trunc, trunc128, U128_MAX. apply not_shl_ones; assumption.
+Qed.
+
+Lemma tpack_mod_firstn b l n : okbl b l -> (n <= length l)%nat ->
+  N.land (tpack b l) (N.ones (N.of_nat n * b)) = pay b (firstn n l).
+Proof.
+  intros H Hn. rewrite N.land_ones, tpack_payH by assumption.
+  apply payH_mod_firstn; [apply H | assumption].
+Qed.
+
+Lemma lenN_firstn {A} n (l : list A) : (n <= length l)%nat -> lenN (firstn n l) = N.of_nat n.
+Proof. intro H. unfold lenN. rewrite firstn_length. f_equal. lia. Qed.
+
+Lemma is_empty_pk b l : okbl b l -> is_empty (pk b l) = is_nil l.
+Proof.
+  intro H. unfold is_empty. rewrite next_index_pk by assumption.
+  destruct l; [reflexivity|]. rewrite lenN_cons. cbn [is_nil]. apply N.eqb_neq. lia.
+Qed.
+
+Lemma okbl_app_firstn b l1 l2 n :
+  okbl b l1 -> okbl b l2 -> (length l1 + n <= 10)%nat -> okbl b (l1 ++ firstn n l2).
+Proof.
+  intros (Hb & Hl1 & Hs1) (_ & Hl2 & Hs2) Hn. split; [assumption|]. split.
+  - rewrite app_length, firstn_length. lia.
+  - apply small_app; [assumption | apply small_firstn; assumption].
+Qed.
+
+(** the value OR-ed into [self] by [k_concat] *)
+Lemma concat_value_pk b l1 l2 tt :
+  okbl b l1 -> okbl b l2 -> tt <= lenN l2 -> lenN l1 + tt <= 10 ->
+  N.land (t (pk b l2)) (N.ones (tt * b)) = pay b (firstn (N.to_nat tt) l2) /\
+  pay b (firstn (N.to_nat tt) l2) * 2 ^ (lenN l1 * b) < 2 ^ 120.
+Proof.
+  intros H1 H2 Ht Hsum. pose proof H2 as (Hb & _ & Hs2).
+  assert (Hn : (N.to_nat tt <= length l2)%nat) by (unfold lenN in Ht; lia).
+  split.
+  - cbn [pk t]. rewrite <- (Nnat.N2Nat.id tt) at 1. apply tpack_mod_firstn; assumption.
+  - pose proof (pay_lt b (firstn (N.to_nat tt) l2) (small_firstn b _ _ Hs2)) as Hp.
+    rewrite lenN_firstn, Nnat.N2Nat.id in Hp by assumption.
+    apply N.lt_le_trans with (2 ^ (tt * b) * 2 ^ (lenN l1 * b)).
+    + apply N.mul_lt_mono_pos_r; [apply pow2_pos | assumption].
+    + rewrite <- N.pow_add_r. apply N.pow_le_mono_r; [discriminate | nia].
+Qed.
+
+Lemma g_is_eps_self1 {A} (isE : A -> bool) (l : list A) :
+  g_is_eps isE (if g_is_eps isE l then [] else l) = false.
+Proof. destruct (g_is_eps isE l) eqn:E; [reflexivity | exact E]. Qed.
+
+Lemma k_concat_pk dbg b l1 l2 k :
+  okbl b l1 -> okbl b l2 -> k <= 10 ->
+  k_concat dbg (pk b l1) (pk b l2) k =
+  Ok (pk b (g_concat (d_isE (N.ones b)) d_isD k l1 l2)).
+Proof.
+  intros H1 H2 Hk. pose proof H1 as (Hb & _ & _).
+  unfold k_concat, g_concat.
+  rewrite !bits_pk by assumption. rewrite N.eqb_refl, dassert_true. cbn [bind].
+  destruct (N.eqb_spec b 0) as [E0|E0]; [lia|]. cbn [negb]. rewrite dassert_true. cbn [bind].
+  rewrite (is_eps_pk b l2), (is_empty_pk b l2) by assumption.
+  destruct (g_is_eps (d_isE (N.ones b)) l2 || is_nil l2) eqn:E2; [reflexivity|].
+  apply orb_false_elim in E2. destruct E2 as [E2a E2b].
+  rewrite (is_eps_pk b l1) by assumption.
+  set (l1' := if g_is_eps (d_isE (N.ones b)) l1 then [] else l1).
+  assert (Hself1 : (if g_is_eps (d_isE (N.ones b)) l1 then clear dbg (pk b l1) else Ok (pk b l1))
+                   = Ok (pk b l1')).
+  { unfold l1'. destruct (g_is_eps (d_isE (N.ones b)) l1);
+      [apply clear_pk; assumption | reflexivity]. }
+  rewrite Hself1. cbn [bind].
+  assert (H1' : okbl b l1').
+  { unfold l1'. destruct (g_is_eps (d_isE (N.ones b)) l1); [apply okbl_nil|]; assumption. }
+  rewrite is_k_complete_pk by assumption. cbn [bind].
+  destruct (g_complete (d_isE (N.ones b)) d_isD k l1') eqn:Ec; [reflexivity|].
+  assert (Hlt : lenN l1' < k).
+  { unfold g_complete in Ec. unfold l1' in Ec at 1. rewrite g_is_eps_self1 in Ec.
+    cbn [negb andb] in Ec. apply orb_false_elim in Ec. destruct Ec as [Ec _].
+    apply N.leb_gt in Ec. assumption. }
+  rewrite !k_len_pk, bits_pk by assumption.
+  rewrite (N.min_l (lenN l1') k) by lia.
+  set (tt := N.min (k - lenN l1') (N.min (lenN l2) k)).
+  assert (Hl2 : 1 <= lenN l2).
+  { destruct l2; [discriminate|]. rewrite lenN_cons. lia. }
+  assert (Htt : 1 <= tt /\ tt <= lenN l2 /\ lenN l1' + tt <= 10) by (unfold tt; lia).
+  destruct Htt as (Htt1 & Htt2 & Htt3).
+  destruct (N.eqb_spec tt 0) as [Ez|Ez]; [lia|].
+  rewrite shl128_ok by nia. cbn [bind].
+  rewrite not_shl_ones128 by nia.
+  destruct (concat_value_pk b l1' l2 tt H1' H2 Htt2 Htt3) as [Hv Hvlt].
+  rewrite Hv. rewrite shl128_ok by nia. cbn [bind].
+  rewrite shl_trunc_small by (apply lt120_128; assumption).
+  unfold MAX_K. rewrite leb_true by assumption. rewrite dassert_true. cbn [bind].
+  cbn [pk t]. unfold tpack at 1.
+  rewrite mk3_lor by (try assumption; apply okbl_pay_lt; assumption).
+  rewrite <- (N.shiftl_mul_pow2 (pay b (firstn (N.to_nat tt) l2))).
+  rewrite lor_shiftl_add by (apply pay_lt; apply H1').
+  rewrite <- pay_app.
+  assert (Hn : (N.to_nat tt <= length l2)%nat) by (unfold lenN in Htt2; lia).
+  assert (Hok : okbl b (l1' ++ firstn (N.to_nat tt) l2)).
+  { apply okbl_app_firstn; try assumption. unfold lenN in Htt3. lia. }
+  pose proof (okbl_pay_lt _ _ Hok) as HP.
+  pose proof (okbl_n16 _ _ H1') as Hn16. pose proof (okbl_b16 _ _ H1') as Hb16.
+  rewrite set_next_index_mk3 by (try assumption; lia).
+  rewrite set_bits_mk3 by (try assumption; lia).
+  unfold pk, tpack. rewrite lenN_app, lenN_firstn, Nnat.N2Nat.id by assumption. reflexivity.
+Qed.
+
+Lemma copy_mask_iter b i :
+  i * b <= 128 -> N.iter i (fun cm => N.lor (shl_trunc cm b) (N.ones b)) 0 = N.ones (i * b).
+Proof.
+  revert i. apply (N.peano_ind (fun i => i * b <= 128 -> _ = N.ones (i * b))).
+  - intros _. reflexivity.
+  - intros i IH Hi. rewrite N.iter_succ, IH by lia.
+    unfold shl_trunc, trunc128, U128_MAX. apply N.bits_inj; intro j.
+    rewrite N.lor_spec, N.land_spec, !ones_testbit.
+    destruct (N.ltb_spec j b) as [Hj|Hj].
+    + rewrite orb_true_r. symmetry. apply N.ltb_lt. nia.
+    + rewrite orb_false_r. rewrite N.shiftl_spec_high' by assumption. rewrite ones_testbit.
+      destruct (N.ltb_spec (j - b) (i * b)) as [H1|H1];
+        destruct (N.ltb_spec j (N.succ i * b)) as [H2|H2];
+        destruct (N.ltb_spec j 128) as [H3|H3]; try reflexivity; lia.
+Qed.
+
+Lemma mk3_P00 P : P = mk3 P 0 0.
+Proof. unfold mk3. lia. Qed.
+
+Lemma of_pk dbg b l k : okbl b l -> of_ dbg k (pk b l) = Ok (pk b (g_of k l)).
+Proof.
+  intro H. pose proof H as (Hb & Hl & Hs). pose proof (okbl_len b l H) as Hlen.
+  unfold of_, g_of. rewrite bits_pk, mask_pk, k_len_pk by assumption.
+  set (i := N.min (lenN l) k). assert (Hi : i <= lenN l) by (unfold i; lia).
+  rewrite copy_mask_iter by nia. cbn [pk t].
+  assert (Hn : (N.to_nat i <= length l)%nat) by (unfold lenN in Hi; lia).
+  rewrite <- (Nnat.N2Nat.id i) at 1. rewrite tpack_mod_firstn by assumption.
+  assert (Hok : okbl b (firstn (N.to_nat i) l)).
+  { split; [assumption|]. split; [rewrite firstn_length; lia | apply small_firstn; assumption]. }
+  pose proof (okbl_pay_lt _ _ Hok) as HP.
+  rewrite (mk3_P00 (pay b (firstn (N.to_nat i) l))) at 1.
+  rewrite set_bits_mk3 by (try assumption; lia). cbn [bind].
+  rewrite set_next_index_mk3 by (try assumption; lia).
+  unfold pk, tpack. rewrite lenN_firstn, Nnat.N2Nat.id by assumption. reflexivity.
+Qed.
+
+Lemma iter_loop_payH b l H :
+  b <= 12 -> small b l -> iter_loop (length l) (payH b l H) (N.ones b) b = map (to16 b) l.
+Proof.
+  intros Hb Hs. induction Hs as [|d r Hd Hr IH]; [reflexivity|].
+  cbn [length iter_loop map]. rewrite N.land_ones, N.shiftr_div_pow2.
+  rewrite payH_cons_mod, payH_cons_div by assumption. rewrite IH. f_equal.
+  unfold to16. destruct (d =? N.ones b); [reflexivity|].
+  change U16_MAX with (N.ones 16). apply lt_pow2_land. pose proof (pow_le_16 b Hb). lia.
+Qed.
+
+Lemma iter_pk b l : okbl b l -> iter (pk b l) = map (to16 b) l.
+Proof.
+  intro H. unfold iter. rewrite next_index_pk, mask_pk, bits_pk by assumption.
+  unfold lenN. rewrite Nnat.Nat2N.id. cbn [pk t]. rewrite tpack_payH by assumption.
+  apply iter_loop_payH; [apply H | apply H].
+Qed.
+
+Lemma to_u128_pk b l : okbl b l -> to_u128 (pk b l) = Ok (pay b l).
+Proof.
+  intro H. pose proof (okbl_span b l H) as Hsp.
+  unfold to_u128. rewrite next_index_pk, bits_pk by assumption.
+  rewrite shl128_ok by lia. cbn [bind]. rewrite not_shl_ones128 by lia.
+  cbn [pk t]. unfold lenN. rewrite tpack_mod_firstn by (try assumption; lia).
+  rewrite firstn_all. reflexivity.
+Qed.
+
+Lemma cmp_pk b1 b2 l1 l2 : okbl b1 l1 -> okbl b2 l2 ->
+  cmp (pk b1 l1) (pk b2 l2) =
+  Ok (match lenN l1 ?= lenN l2 with Eq => pay b1 l1 ?= pay b2 l2 | c => c end).
+Proof.
+  intros H1 H2. unfold cmp. rewrite !next_index_pk by assumption.
+  destruct (lenN l1 ?= lenN l2); try reflexivity.
+  rewrite !to_u128_pk by assumption. reflexivity.
+Qed.
+
+(** ** The theorems of C32, stated on [denote] *)
+
+(** the term a [u16] argument [tm] of [push]/[set] denotes inside [p] *)
+Definition term_of (p : packed) (tm : N) : term := decode (mask p) (N.land tm (mask p)).
+(** argument accepted by the [debug_assert]s of [set]: a value [<= mask] or [EPS] *)
+Definition arg_ok (p : packed) (tm : N) : Prop := tm <= mask p \/ tm = EPS.
+
+Ltac use_denote H l Hok HL b :=
+  let Hp := fresh "Hp" in
+  let Eb := fresh "Eb" in
+  apply denote_repr in H; destruct H as (l & Hok & Hp & HL);
+  match type of Hp with ?p = _ => remember (bits p) as b eqn:Eb; subst p end.
+
+Ltac use_wf H l Hok b :=
+  let Hp := fresh "Hp" in
+  apply wf_repr in H; destruct H as [Hok Hp];
+  match type of Hp with ?p = _ => remember (bits p) as b; remember (slots p) as l; subst p end.
+
+Ltac fin_bits :=
+  rewrite ?bits_pk by assumption; first [reflexivity | assumption | symmetry; assumption].
+
+Lemma mk_nz b l : okbl b l -> N.ones b <> 0.
+Proof. intro H. apply ones_pos, H. Qed.
+
+Theorem wf_new dbg m :
+  m <= 4094 ->
+  exists p, new dbg m = Ok p /\ wf p /\ denote p = Some [] /\ bits p = N.log2 (m + 1) + 1.
+Proof.
+  intro H. pose proof (okbl_nil _ (width_ok m H)) as Hok.
+  exists (pk (N.log2 (m + 1) + 1) []). split; [apply new_ok; assumption|].
+  split; [apply wf_pk; assumption|]. split; [|apply bits_pk; assumption].
+  rewrite denote_pk by assumption. reflexivity.
+Qed.
+
+(** the panic condition of [new] is exactly "more than 4095 terminals (index > 4094)" *)
+Theorem new_ok_iff dbg m : (exists p, new dbg m = Ok p) <-> m <= 4094.
+Proof.
+  split.
+  - intros [p Hp]. destruct (N.le_gt_cases m 4094) as [H|H]; [assumption|].
+    rewrite new_panics in Hp by lia. discriminate.
+  - intro H. eexists. apply new_ok; assumption.
+Qed.
+
+Theorem denote_eps dbg m :
+  m <= 4094 ->
+  exists p, eps dbg m = Ok p /\ wf p /\ denote p = Some [Eps] /\ bits p = N.log2 (m + 1) + 1.
+Proof.
+  intro H. pose proof (width_ok m H) as Hb. set (b := N.log2 (m + 1) + 1) in *.
+  assert (Hok : okbl b [N.ones b]).
+  { apply (okbl_snoc b [] (N.ones b) (okbl_nil b Hb)); [reflexivity | apply ones_lt]. }
+  exists (pk b [N.ones b]). split; [apply eps_pk; assumption|].
+  split; [apply wf_pk; assumption|]. split; [|apply bits_pk; assumption].
+  rewrite denote_pk by assumption. cbn [map]. unfold decode. rewrite N.eqb_refl. reflexivity.
+Qed.
+
+Theorem denote_end dbg m :
+  m <= 4094 ->
+  exists p, end_ dbg m = Ok p /\ wf p /\ denote p = Some [End] /\ bits p = N.log2 (m + 1) + 1.
+Proof.
+  intro H. pose proof (width_ok m H) as Hb. set (b := N.log2 (m + 1) + 1) in *.
+  assert (Hok : okbl b [0]).
+  { apply (okbl_snoc b [] 0 (okbl_nil b Hb)); [reflexivity | apply pow2_pos]. }
+  exists (pk b [0]). split; [apply end_pk; assumption|].
+  split; [apply wf_pk; assumption|]. split; [|apply bits_pk; assumption].
+  rewrite denote_pk by assumption. cbn [map]. unfold decode.
+  destruct (N.eqb_spec 0 (N.ones b)) as [E|E]; [|reflexivity].
+  pose proof (ones_pos b ltac:(lia)). congruence.
+Qed.
+
+Theorem denote_len p L : denote p = Some L -> len p = lenN L.
+Proof.
+  intro H. use_denote H l Hok HL b. subst L. rewrite len_pk by assumption.
+  unfold lenN. rewrite map_length. reflexivity.
+Qed.
+
+Theorem denote_is_empty p L : denote p = Some L -> is_empty p = is_nil L.
+Proof.
+  intro H. use_denote H l Hok HL b. subst L. rewrite is_empty_pk by assumption.
+  destruct l; reflexivity.
+Qed.
+
+Theorem denote_k_len p L k : denote p = Some L -> k_len p k = N.min (lenN L) k.
+Proof.
+  intro H. use_denote H l Hok HL b. subst L. rewrite k_len_pk by assumption.
+  unfold lenN. rewrite map_length. reflexivity.
+Qed.
+
+Theorem denote_get p L i :
+  denote p = Some L -> get p i = Ok (option_map enc16 (nth_error L (N.to_nat i))).
+Proof.
+  intro H. use_denote H l Hok HL b. subst L. rewrite get_pk by assumption.
+  rewrite nth_error_map. destruct (nth_error l (N.to_nat i)); cbn [option_map]; [|reflexivity].
+  rewrite to16_enc16. reflexivity.
+Qed.
+
+Theorem denote_last p L :
+  denote p = Some L -> last p = Ok (option_map enc16 (olast L)).
+Proof.
+  intro H. use_denote H l Hok HL b. subst L. rewrite last_pk by assumption.
+  rewrite olast_map. destruct (olast l); cbn [option_map]; [|reflexivity].
+  rewrite to16_enc16. reflexivity.
+Qed.
+
+Theorem denote_iter p L : denote p = Some L -> iter p = map enc16 L.
+Proof.
+  intro H. use_denote H l Hok HL b. subst L. rewrite iter_pk by assumption.
+  rewrite map_map. apply map_ext. intro d. apply to16_enc16.
+Qed.
+
+Theorem denote_is_eps p L : denote p = Some L -> is_eps p = a_is_eps L.
+Proof.
+  intro H. use_denote H l Hok HL b. subst L. rewrite is_eps_pk by assumption.
+  unfold a_is_eps. symmetry.
+  apply (g_is_eps_map (decode (N.ones b)) (d_isE (N.ones b)) t_isE (decode_isE _)).
+Qed.
+
+Theorem denote_is_k_complete p L k :
+  denote p = Some L -> is_k_complete p k = Ok (a_complete k L).
+Proof.
+  intro H. use_denote H l Hok HL b. subst L. rewrite is_k_complete_pk by assumption.
+  unfold a_complete. f_equal. symmetry.
+  apply (g_complete_map (decode (N.ones b)) (d_isE (N.ones b)) d_isD t_isE t_isD
+           (decode_isE _) (fun d => decode_isD _ d (mk_nz b l Hok))).
+Qed.
+
+Theorem denote_clear dbg p L :
+  denote p = Some L ->
+  exists p', clear dbg p = Ok p' /\ wf p' /\ denote p' = Some [] /\ bits p' = bits p.
+Proof.
+  intro H. use_denote H l Hok HL b.
+  assert (Hnil : okbl b []) by (apply okbl_nil, Hok).
+  exists (pk b []). split; [apply clear_pk; assumption|].
+  split; [apply wf_pk; assumption|].
+  split; [rewrite denote_pk by assumption; reflexivity|].
+  fin_bits.
+Qed.
+
+Lemma mask_pk' b l : okbl b l -> mask (pk b l) = N.ones b.
+Proof. apply mask_pk. Qed.
+
+Theorem denote_push dbg p L tm :
+  denote p = Some L -> arg_ok p tm ->
+  match a_push L (term_of p tm) with
+  | None => push dbg p tm = Ok None
+  | Some L' => exists p', push dbg p tm = Ok (Some p') /\ wf p' /\
+                          denote p' = Some L' /\ bits p' = bits p
+  end.
+Proof.
+  intros H Harg. use_denote H l Hok HL b. subst L.
+  unfold arg_ok, term_of in *. rewrite mask_pk in * by assumption.
+  rewrite push_pk by assumption.
+  unfold a_push.
+  rewrite (g_push_map (decode (N.ones b)) d_isD t_isD (fun d => decode_isD _ d (mk_nz b l Hok))).
+  destruct (g_push d_isD l (N.land tm (N.ones b))) as [l'|] eqn:E; cbn [option_map];
+    [|reflexivity].
+  assert (Hok' : okbl b l').
+  { eapply g_push_okbl; [exact Hok | apply land_ones_lt | exact E]. }
+  exists (pk b l'). split; [reflexivity|]. split; [apply wf_pk; assumption|].
+  split; [apply denote_pk; assumption|]. fin_bits.
+Qed.
+
+Lemma g_extend_okbl b ds : forall l,
+  small b ds -> okbl b l -> okbl b (g_extend d_isD l ds).
+Proof.
+  intros l Hds. revert l. induction Hds as [|d r Hd Hr IH]; intros l Hok; [exact Hok|].
+  cbn [g_extend]. destruct (g_push d_isD l d) as [l'|] eqn:E.
+  - apply IH. eapply g_push_okbl; eassumption.
+  - apply IH; assumption.
+Qed.
+
+Theorem denote_extend dbg p L ts :
+  denote p = Some L -> Forall (arg_ok p) ts ->
+  exists p', extend dbg p ts = Ok p' /\ wf p' /\
+             denote p' = Some (a_extend L (map (term_of p) ts)) /\ bits p' = bits p.
+Proof.
+  intros H Harg. use_denote H l Hok HL b. subst L.
+  unfold arg_ok, term_of in *. rewrite mask_pk in * by assumption.
+  rewrite extend_pk by assumption.
+  set (ds := map (fun tm => N.land tm (N.ones b)) ts).
+  assert (Hds : small b ds).
+  { unfold ds, small. apply Forall_forall. intros d Hd. apply in_map_iff in Hd.
+    destruct Hd as (x & <- & _). apply land_ones_lt. }
+  assert (Hok' : okbl b (g_extend d_isD l ds)) by (apply g_extend_okbl; assumption).
+  exists (pk b (g_extend d_isD l ds)). split; [reflexivity|].
+  split; [apply wf_pk; assumption|]. split; [|fin_bits].
+  rewrite denote_pk by assumption. f_equal. unfold a_extend.
+  rewrite <- (g_extend_map (decode (N.ones b)) d_isD t_isD (fun d => decode_isD _ d (mk_nz b l Hok))).
+  f_equal. unfold ds. rewrite map_map. reflexivity.
+Qed.
+
+Lemma g_of_okbl b l k : okbl b l -> okbl b (g_of k l).
+Proof.
+  intros (Hb & Hl & Hs). unfold g_of. split; [assumption|]. split.
+  - rewrite firstn_length. lia.
+  - apply small_firstn; assumption.
+Qed.
+
+Theorem denote_of dbg p L k :
+  denote p = Some L ->
+  exists p', of_ dbg k p = Ok p' /\ wf p' /\ denote p' = Some (a_of k L) /\ bits p' = bits p.
+Proof.
+  intro H. use_denote H l Hok HL b. subst L.
+  pose proof (g_of_okbl b l k Hok) as Hok'.
+  exists (pk b (g_of k l)). split; [apply of_pk; assumption|].
+  split; [apply wf_pk; assumption|]. split; [|fin_bits].
+  rewrite denote_pk by assumption. unfold a_of. rewrite g_of_map. reflexivity.
+Qed.
+
+Lemma g_concat_okbl b l1 l2 k :
+  okbl b l1 -> okbl b l2 -> k <= 10 -> okbl b (g_concat (d_isE (N.ones b)) d_isD k l1 l2).
+Proof.
+  intros H1 H2 Hk. unfold g_concat.
+  destruct (g_is_eps (d_isE (N.ones b)) l2 || is_nil l2); [assumption|].
+  set (l1' := if g_is_eps (d_isE (N.ones b)) l1 then [] else l1).
+  assert (H1' : okbl b l1').
+  { unfold l1'. destruct (g_is_eps (d_isE (N.ones b)) l1); [apply okbl_nil, H1 | assumption]. }
+  destruct (g_complete (d_isE (N.ones b)) d_isD k l1') eqn:Ec; [assumption|].
+  apply okbl_app_firstn; try assumption.
+  pose proof (okbl_len b l1' H1') as Hl. unfold lenN in *. lia.
+Qed.
+
+Theorem denote_k_concat dbg a b La Lb k :
+  denote a = Some La -> denote b = Some Lb -> bits a = bits b -> k <= MAX_K ->
+  exists c, k_concat dbg a b k = Ok c /\ wf c /\
+            denote c = Some (a_concat k La Lb) /\ bits c = bits a.
+Proof.
+  intros Ha Hb Hbits Hk. unfold MAX_K in Hk.
+  use_denote Ha la Hoka HLa ba. use_denote Hb lb Hokb HLb bb. subst La Lb.
+  subst bb.
+  pose proof (g_concat_okbl ba la lb k Hoka Hokb Hk) as Hok.
+  exists (pk ba (g_concat (d_isE (N.ones ba)) d_isD k la lb)).
+  split; [apply k_concat_pk; assumption|]. split; [apply wf_pk; assumption|].
+  split; [|fin_bits].
+  rewrite denote_pk by assumption. unfold a_concat. f_equal. symmetry.
+  apply (g_concat_map (decode (N.ones ba)) (d_isE (N.ones ba)) d_isD t_isE t_isD
+           (decode_isE _) (fun d => decode_isD _ d (mk_nz ba la Hoka))).
+Qed.
+
+(** ** Equality *)
+Theorem eqb_eq a b : eqb a b = true <-> a = b.
+Proof.
+  unfold eqb. rewrite N.eqb_eq. split; [|intros ->; reflexivity].
+  destruct a as [x], b as [y]; cbn [t]; intros ->; reflexivity.
+Qed.
+
+Theorem eq_iff_denote a b :
+  wf a -> wf b -> bits a = bits b -> (a = b <-> denote a = denote b).
+Proof.
+  intros Ha Hb Hbits. split; [intros ->; reflexivity|].
+  intro Hd. destruct (wf_repr a Ha) as [Hoka Hpa]. destruct (wf_repr b Hb) as [Hokb Hpb].
+  rewrite (denote_eq a Ha), (denote_eq b Hb) in Hd. apply Some_inj in Hd.
+  rewrite <- Hbits in Hd. apply map_decode_inj in Hd; [|apply ones_pos, Hoka].
+  rewrite Hpa, Hpb, <- Hbits, Hd. reflexivity.
+Qed.
+
+(** without the "same width" side condition the width is part of the value *)
+Theorem eq_iff_bits_denote a b :
+  wf a -> wf b -> (a = b <-> bits a = bits b /\ denote a = denote b).
+Proof.
+  intros Ha Hb. split; [intros ->; split; reflexivity|].
+  intros [H1 H2]. apply eq_iff_denote; assumption.
+Qed.
+
+(** ** Ordering: length first, then the packed value, i.e. co-lexicographic (the LAST
+    element is the most significant), elements ordered by their slot value:
+    [End] (0) < [Trm i] (by [i]) < [Eps] (all ones). *)
+Definition seq_cmp (mk : N) (L1 L2 : list term) : comparison :=
+  match lenN L1 ?= lenN L2 with
+  | Eq => colex (map (encode mk) L1) (map (encode mk) L2)
+  | c => c
+  end.
+
+Lemma encode_decode mk d : encode mk (decode mk d) = d.
+Proof.
+  unfold decode. destruct (N.eqb_spec d mk) as [E|E]; [subst; reflexivity|].
+  destruct (N.eqb_spec d 0) as [Z|Z]; [subst; reflexivity | reflexivity].
+Qed.
+
+Lemma map_encode_decode mk l : map (encode mk) (map (decode mk) l) = l.
+Proof.
+  rewrite map_map. rewrite <- (map_id l) at 2. apply map_ext. apply encode_decode.
+Qed.
+
+Lemma term_order mk i j : 0 < i -> i < j -> j < mk ->
+  encode mk End < encode mk (Trm i) /\ encode mk (Trm i) < encode mk (Trm j) /\
+  encode mk (Trm j) < encode mk Eps.
+Proof. cbn [encode]. lia. Qed.
+
+Theorem cmp_spec a b La Lb :
+  denote a = Some La -> denote b = Some Lb -> bits a = bits b ->
+  cmp a b = Ok (seq_cmp (mask a) La Lb).
+Proof.
+  intros Ha Hb Hbits. use_denote Ha la Hoka HLa ba. use_denote Hb lb Hokb HLb bb.
+  subst bb La Lb. rewrite cmp_pk, mask_pk by assumption. unfold seq_cmp.
+  rewrite !(lenN_map (decode (N.ones ba))), !map_encode_decode.
+  destruct (N.compare_spec (lenN la) (lenN lb)) as [E|E|E]; try reflexivity.
+  rewrite pay_compare; [reflexivity | apply Hoka | apply Hokb |].
+  unfold lenN in E. lia.
+Qed.
+
+Definition lexcmp (n1 p1 n2 p2 : N) : comparison :=
+  match n1 ?= n2 with Eq => p1 ?= p2 | c => c end.
+
+Lemma lexcmp_refl n p : lexcmp n p n p = Eq.
+Proof. unfold lexcmp. rewrite !N.compare_refl. reflexivity. Qed.
+
+Lemma lexcmp_antisym n1 p1 n2 p2 : lexcmp n2 p2 n1 p1 = CompOpp (lexcmp n1 p1 n2 p2).
+Proof.
+  unfold lexcmp. rewrite (N.compare_antisym n1 n2), (N.compare_antisym p1 p2).
+  destruct (n1 ?= n2); reflexivity.
+Qed.
+
+Lemma lexcmp_lt n1 p1 n2 p2 : lexcmp n1 p1 n2 p2 = Lt <-> n1 < n2 \/ (n1 = n2 /\ p1 < p2).
+Proof.
+  unfold lexcmp. destruct (N.compare_spec n1 n2) as [E|E|E].
+  - rewrite N.compare_lt_iff. lia.
+  - split; [intros _; left; assumption | reflexivity].
+  - split; [discriminate | lia].
+Qed.
+
+Lemma lexcmp_eq n1 p1 n2 p2 : lexcmp n1 p1 n2 p2 = Eq <-> n1 = n2 /\ p1 = p2.
+Proof.
+  unfold lexcmp. destruct (N.compare_spec n1 n2) as [E|E|E].
+  - rewrite N.compare_eq_iff. split; [intro; split; assumption | intros [_ H]; exact H].
+  - split; [discriminate | lia].
+  - split; [discriminate | lia].
+Qed.
+
+Lemma cmp_pk' b1 b2 l1 l2 : okbl b1 l1 -> okbl b2 l2 ->
+  cmp (pk b1 l1) (pk b2 l2) = Ok (lexcmp (lenN l1) (pay b1 l1) (lenN l2) (pay b2 l2)).
+Proof. apply cmp_pk. Qed.
+
+Lemma Ok_inj {A} (x y : A) : Ok x = Ok y -> x = y.
+Proof. intro H. injection H as H. exact H. Qed.
+
+(** [cmp] is a (strict) total order on well-formed values; it ignores the width field, so
+    it is compatible with [==] exactly on values of the same width. *)
+Theorem cmp_total_order a b c :
+  wf a -> wf b -> wf c ->
+  cmp a a = Ok Eq /\
+  (exists r, cmp a b = Ok r /\ cmp b a = Ok (CompOpp r)) /\
+  (cmp a b = Ok Lt -> cmp b c = Ok Lt -> cmp a c = Ok Lt) /\
+  (cmp a b = Ok Eq -> cmp a c = cmp b c) /\
+  (bits a = bits b -> (cmp a b = Ok Eq <-> a = b)).
+Proof.
+  intros Ha Hb Hc.
+  use_wf Ha la Hoka ba. use_wf Hb lb Hokb bb. use_wf Hc lc Hokc bc.
+  rewrite !cmp_pk' by assumption.
+  split; [rewrite lexcmp_refl; reflexivity|].
+  split; [eexists; split; [reflexivity | rewrite lexcmp_antisym; reflexivity]|].
+  split.
+  { intros H1 H2. apply Ok_inj in H1. apply Ok_inj in H2. f_equal.
+    apply lexcmp_lt in H1. apply lexcmp_lt in H2. apply lexcmp_lt. lia. }
+  split.
+  { intro H1. apply Ok_inj in H1. apply lexcmp_eq in H1. destruct H1 as [H1 H2].
+    rewrite H1, H2. reflexivity. }
+  intro Hbits. split.
+  - intro H1. apply Ok_inj in H1. apply lexcmp_eq in H1. destruct H1 as [H1 H2].
+    subst bb. f_equal.
+    apply (pay_inj ba); [apply Hoka | apply Hokb | unfold lenN in H1; lia | assumption].
+  - intro E. assert (El : la = lb).
+    { rewrite <- (slots_pk ba la Hoka), <- (slots_pk bb lb Hokb), E. reflexivity. }
+    subst bb lb. rewrite lexcmp_refl. reflexivity.
+Qed.
+
+(** ** epsilon can never be confused with a terminal *)
+Theorem eps_never_a_terminal dbg m p :
+  new dbg m = Ok p ->
+  mask p = 2 ^ bits p - 1 /\ m + 1 < 2 ^ bits p /\
+  term_of p EPS = Eps /\
+  forall i, i <= m ->
+    i < mask p /\ N.land i (mask p) = i /\ term_of p i = (if i =? 0 then End else Trm i).
+Proof.
+  intro H. assert (Hm : m <= 4094) by (apply (new_ok_iff dbg); eexists; eassumption).
+  rewrite new_ok in H by assumption. apply Ok_inj in H. subst p.
+  pose proof (width_ok m Hm) as Hb. pose proof (new_bits_bound m) as [Hhi Hlo].
+  set (b := N.log2 (m + 1) + 1) in *.
+  pose proof (okbl_nil b Hb) as Hok.
+  unfold term_of. rewrite mask_pk, bits_pk by assumption.
+  rewrite N.ones_equiv, <- N.sub_1_r. split; [reflexivity|]. split; [assumption|].
+  pose proof (pow2_pos b) as Hp.
+  split.
+  - rewrite N.sub_1_r, <- N.ones_equiv, land_eps by lia. unfold decode.
+    rewrite N.eqb_refl. reflexivity.
+  - intros i Hi. split; [lia|].
+    assert (Hl : N.land i (2 ^ b - 1) = i).
+    { rewrite N.sub_1_r, <- N.ones_equiv. apply lt_pow2_land. lia. }
+    split; [assumption|]. rewrite Hl. unfold decode.
+    destruct (N.eqb_spec i (2 ^ b - 1)) as [E|E]; [lia | reflexivity].
+Qed.
+
+(** the two boundary cases: [m + 2] resp. [m + 1] a power of two *)
+Lemma log2_pow2_pred b : 1 <= b -> N.log2 (2 ^ b - 1) = b - 1.
+Proof.
+  intro H. apply N.log2_unique; [lia|].
+  replace (N.succ (b - 1)) with b by lia.
+  assert (E : 2 ^ b = 2 * 2 ^ (b - 1)).
+  { rewrite <- N.pow_succ_r'. f_equal. lia. }
+  pose proof (pow2_pos (b - 1)). lia.
+Qed.
+
+Theorem new_boundary_lo dbg b :
+  1 <= b <= 12 ->
+  exists p, new dbg (2 ^ b - 2) = Ok p /\ bits p = b /\ mask p = (2 ^ b - 2) + 1.
+Proof.
+  intro H.
+  assert (Hp : 2 <= 2 ^ b /\ 2 ^ b <= 4096).
+  { split.
+    - change 2 with (2 ^ 1) at 1. apply N.pow_le_mono_r; [discriminate | lia].
+    - change 4096 with (2 ^ 12). apply N.pow_le_mono_r; [discriminate | lia]. }
+  assert (Hm : 2 ^ b - 2 <= 4094) by lia.
+  assert (Hw : N.log2 (2 ^ b - 2 + 1) + 1 = b).
+  { replace (2 ^ b - 2 + 1) with (2 ^ b - 1) by lia. rewrite log2_pow2_pred by lia. lia. }
+  pose proof (okbl_nil b H) as Hok.
+  exists (pk b []). rewrite new_ok, Hw by assumption. split; [reflexivity|].
+  rewrite bits_pk, mask_pk, N.ones_equiv by assumption. split; [reflexivity | lia].
+Qed.
+
+Theorem new_boundary_hi dbg b :
+  1 <= b <= 11 -> exists p, new dbg (2 ^ b - 1) = Ok p /\ bits p = b + 1.
+Proof.
+  intro H.
+  assert (Hp : 2 <= 2 ^ b /\ 2 ^ b <= 2048).
+  { split.
+    - change 2 with (2 ^ 1) at 1. apply N.pow_le_mono_r; [discriminate | lia].
+    - change 2048 with (2 ^ 11). apply N.pow_le_mono_r; [discriminate | lia]. }
+  assert (Hm : 2 ^ b - 1 <= 4094) by lia.
+  assert (Hw : N.log2 (2 ^ b - 1 + 1) + 1 = b + 1).
+  { replace (2 ^ b - 1 + 1) with (2 ^ b) by lia. rewrite N.log2_pow2 by lia. reflexivity. }
+  assert (Hok : okbl (b + 1) []) by (apply okbl_nil; lia).
+  exists (pk (b + 1) []). rewrite new_ok, Hw by assumption. split; [reflexivity|].
+  apply bits_pk; assumption.
+Qed.
+
+Theorem new_boundary_4095 dbg : new dbg (2 ^ 12 - 1) = Panic /\ new dbg (2 ^ 12 - 2) <> Panic.
+Proof.
+  split; [apply new_panics; vm_compute; discriminate|].
+  rewrite new_ok by (vm_compute; discriminate). discriminate.
+Qed.
+
+(** ** [k_concat] never shifts payload into the metadata bits, and its
+    [debug_assert!(false)] branch ([to_take == 0]) is dead. *)
+Theorem concat_no_overflow a b La Lb k :
+  denote a = Some La -> denote b = Some Lb -> bits a = bits b -> k <= MAX_K ->
+  a_is_eps La = false -> a_complete k La = false -> a_is_eps Lb = false -> Lb <> [] ->
+  let my_k_len := k_len a k in
+  let to_take := N.min (k - my_k_len) (k_len b k) in
+  1 <= to_take /\ my_k_len + to_take <= MAX_K /\
+  exists m value,
+    shl128 U128_MAX (to_take * bits a) = Ok m /\
+    shl128 (N.land (t b) (not128 m)) (my_k_len * bits a) = Ok value /\
+    value < 2 ^ 120.
+Proof.
+  intros Ha Hb Hbits Hk Ea Ec Eb Hnil. unfold MAX_K in *.
+  use_denote Ha la Hoka HLa ba. use_denote Hb lb Hokb HLb bb. subst bb La Lb.
+  cbv zeta. rewrite !k_len_pk by assumption.
+  unfold a_complete, a_is_eps in *.
+  rewrite (g_complete_map (decode (N.ones ba)) (d_isE (N.ones ba)) d_isD t_isE t_isD
+            (decode_isE _) (fun d => decode_isD _ d (mk_nz ba la Hoka))) in Ec.
+  unfold g_complete in Ec.
+  rewrite (g_is_eps_map (decode (N.ones ba)) (d_isE (N.ones ba)) t_isE (decode_isE _)) in Ea.
+  rewrite Ea in Ec. cbn [negb andb] in Ec. apply orb_false_elim in Ec. destruct Ec as [Ec _].
+  apply N.leb_gt in Ec.
+  assert (Hl2 : 1 <= lenN lb).
+  { destruct lb; [contradiction Hnil; reflexivity|]. rewrite lenN_cons. lia. }
+  rewrite (N.min_l (lenN la) k) by lia.
+  set (tt := N.min (k - lenN la) (N.min (lenN lb) k)).
+  assert (Htt : 1 <= tt /\ tt <= lenN lb /\ lenN la + tt <= 10) by (unfold tt; lia).
+  destruct Htt as (Htt1 & Htt2 & Htt3). pose proof Hoka as (Hba & _ & _).
+  split; [assumption|]. split; [assumption|].
+  destruct (concat_value_pk ba la lb tt Hoka Hokb Htt2 Htt3) as [Hv Hvlt].
+  eexists. eexists. split; [apply shl128_ok; nia|].
+  rewrite not_shl_ones128 by nia. rewrite Hv. split; [apply shl128_ok; nia|].
+  rewrite shl_trunc_small by (apply lt120_128; assumption). assumption.
+Qed.
+
+(** ** [TerminalString] and [KTuple] *)
+Theorem ts_eqb_eq a b : ts_eqb a b = true <-> a = b.
+Proof.
+  unfold ts_eqb. rewrite andb_true_iff, eqb_eq.
+  destruct a as [p|p], b as [q|q]; cbn [ts_tag ts_inner Bool.eqb]; split;
+    try (intros [H1 H2]; try discriminate; subst; reflexivity);
+    try discriminate; intro H; injection H as ->; split; reflexivity.
+Qed.
+
+Theorem kt_eqb_eq x y : kt_eqb x y = true <-> x = y.
+Proof.
+  unfold kt_eqb. rewrite andb_true_iff, ts_eqb_eq, N.eqb_eq.
+  destruct x as [s n], y as [s' n']; cbn [terminals kk]. split.
+  - intros [-> ->]. reflexivity.
+  - intro H. injection H as -> ->. split; reflexivity.
+Qed.
+
+Definition ts_wf (s : tstring) : Prop := wf (ts_inner s).
+Definition kt_wf (x : ktuple) : Prop := ts_wf (terminals x).
+Definition kt_bits (x : ktuple) : N := bits (ts_inner (terminals x)).
+
+(** the value of a [KTuple] is the triple (tag, sequence, k field) *)
+Theorem ktuple_abstract x y :
+  kt_wf x -> kt_wf y -> kt_bits x = kt_bits y -> (x = y <-> kt_denote x = kt_denote y).
+Proof.
+  intros Hx Hy Hb. split; [intros ->; reflexivity|].
+  destruct x as [sx nx], y as [sy ny]. unfold kt_wf, ts_wf, kt_bits, kt_denote, ts_denote in *.
+  cbn [terminals kk] in *.
+  destruct (wf_denote _ Hx) as [Lx Ex]. destruct (wf_denote _ Hy) as [Ly Ey].
+  rewrite Ex, Ey. intro H. apply Some_inj in H.
+  assert (H1 : ts_tag sx = ts_tag sy) by congruence.
+  assert (H2 : Lx = Ly) by congruence.
+  assert (H3 : nx = ny) by congruence.
+  assert (H4 : ts_inner sx = ts_inner sy).
+  { apply eq_iff_denote; try assumption. congruence. }
+  subst ny. f_equal.
+  destruct sx, sy; cbn [ts_tag ts_inner] in *; try discriminate; subst; reflexivity.
+Qed.
+
+Lemma ts_classify_pk b l k : okbl b l ->
+  ts_classify (pk b l) k =
+  Ok (if g_complete (d_isE (N.ones b)) d_isD k l then Complete (pk b l) else Incomplete (pk b l)).
+Proof.
+  intro H. unfold ts_classify. rewrite is_k_complete_pk by assumption. reflexivity.
+Qed.
+
+Lemma ts_classify_denote p L k :
+  denote p = Some L ->
+  exists s, ts_classify p k = Ok s /\ ts_inner s = p /\ ts_tag s = a_complete k L.
+Proof.
+  intro H. unfold ts_classify. rewrite (denote_is_k_complete p L k H). cbn [bind].
+  destruct (a_complete k L); eexists; (split; [reflexivity|]); split; reflexivity.
+Qed.
+
+Theorem denote_kt_eps dbg k m :
+  m <= 4094 ->
+  exists x, kt_eps dbg k m = Ok x /\
+            kt_denote x = Some (false, [Eps], N.min k MAX_K) /\
+            kt_bits x = N.log2 (m + 1) + 1.
+Proof.
+  intro H. destruct (denote_eps dbg m H) as (p & Hp & _ & Hd & Hb).
+  unfold kt_eps. rewrite Hp. cbn [bind]. eexists. split; [reflexivity|].
+  unfold kt_denote, ts_denote, kt_bits. cbn [terminals ts_inner ts_tag kk]. rewrite Hd.
+  split; [reflexivity | assumption].
+Qed.
+
+Theorem denote_kt_end dbg k m :
+  m <= 4094 ->
+  exists x, kt_end dbg k m = Ok x /\
+            kt_denote x = Some (true, [End], N.min k MAX_K) /\
+            kt_bits x = N.log2 (m + 1) + 1.
+Proof.
+  intro H. destruct (denote_end dbg m H) as (p & Hp & _ & Hd & Hb).
+  unfold kt_end. rewrite Hp. cbn [bind]. eexists. split; [reflexivity|].
+  unfold kt_denote, ts_denote, kt_bits. cbn [terminals ts_inner ts_tag kk]. rewrite Hd.
+  split; [reflexivity | assumption].
+Qed.
+
+Theorem denote_kt_of dbg p L k :
+  denote p = Some L ->
+  exists x, kt_of dbg p k = Ok x /\
+            kt_denote x = Some (a_complete k (a_of k L), a_of k L, k) /\
+            kt_bits x = bits p.
+Proof.
+  intro H. destruct (denote_of dbg p L k H) as (q & Hq & _ & Hd & Hb).
+  destruct (ts_classify_denote q _ k Hd) as (s & Hs & Hi & Ht).
+  unfold kt_of. rewrite Hq. cbn [bind]. rewrite Hs. cbn [bind].
+  eexists. split; [reflexivity|].
+  unfold kt_denote, ts_denote, kt_bits. cbn [terminals kk]. rewrite Hi, Hd, Ht.
+  split; [reflexivity | assumption].
+Qed.
+
+(** [TerminalString::k_concat] *)
+Theorem denote_ts_k_concat dbg a b ta La tb Lb k :
+  ts_denote a = Some (ta, La) -> ts_denote b = Some (tb, Lb) ->
+  bits (ts_inner a) = bits (ts_inner b) -> k <= MAX_K ->
+  exists c, ts_k_concat dbg a b k = Ok c /\
+            ts_denote c = Some (if ta then (true, La)
+                                else (a_complete k (a_concat k La Lb), a_concat k La Lb)) /\
+            bits (ts_inner c) = bits (ts_inner a).
+Proof.
+  unfold ts_denote. intros Ha Hb Hbits Hk.
+  destruct (denote (ts_inner a)) as [La'|] eqn:Ea; [|discriminate].
+  destruct (denote (ts_inner b)) as [Lb'|] eqn:Eb; [|discriminate].
+  apply Some_inj in Ha. apply Some_inj in Hb.
+  assert (ts_tag a = ta /\ La' = La) as [Hta ->] by (split; congruence).
+  assert (Lb' = Lb) as -> by congruence.
+  destruct a as [p|p]; cbn [ts_tag ts_inner] in *; subst ta.
+  - destruct (denote_k_concat dbg p (ts_inner b) La Lb k Ea Eb Hbits Hk)
+      as (c & Hc & _ & Hd & Hbc).
+    destruct (ts_classify_denote c _ k Hd) as (s & Hs & Hi & Ht).
+    cbn [ts_k_concat]. rewrite Hc. cbn [bind]. rewrite Hs.
+    exists s. split; [reflexivity|]. rewrite Hi, Hd, Ht. split; [reflexivity | assumption].
+  - cbn [ts_k_concat]. eexists. split; [reflexivity|]. cbn [ts_inner ts_tag]. rewrite Ea.
+    split; reflexivity.
+Qed.
+
+(** [KTuple::k_concat]: the new [k] field is [min(len, k)] *)
+Theorem denote_kt_k_concat dbg x y tx Lx kx ty Ly ky k :
+  kt_denote x = Some (tx, Lx, kx) -> kt_denote y = Some (ty, Ly, ky) ->
+  kt_bits x = kt_bits y -> k <= MAX_K ->
+  exists z, kt_k_concat dbg x y k = Ok z /\ kt_bits z = kt_bits x /\
+    kt_denote z =
+    Some (if tx then (true, Lx, N.min (lenN Lx) k)
+          else (a_complete k (a_concat k Lx Ly), a_concat k Lx Ly,
+                N.min (lenN (a_concat k Lx Ly)) k)).
+Proof.
+  unfold kt_denote, kt_bits. intros Hx Hy Hbits Hk.
+  destruct (ts_denote (terminals x)) as [[tx' Lx']|] eqn:Ex; [|discriminate].
+  destruct (ts_denote (terminals y)) as [[ty' Ly']|] eqn:Ey; [|discriminate].
+  apply Some_inj in Hx. apply Some_inj in Hy.
+  assert (tx' = tx /\ Lx' = Lx) as [-> ->] by (split; congruence).
+  assert (ty' = ty /\ Ly' = Ly) as [-> ->] by (split; congruence).
+  destruct (denote_ts_k_concat dbg _ _ tx Lx ty Ly k Ex Ey Hbits Hk) as (c & Hc & Hd & Hb).
+  unfold kt_k_concat. rewrite Hc. cbn [bind]. eexists. split; [reflexivity|].
+  cbn [terminals kk]. split; [assumption|]. rewrite Hd.
+  unfold ts_denote in Hd. destruct (denote (ts_inner c)) as [Lc|] eqn:Edc; [|discriminate].
+  rewrite (denote_k_len _ _ k Edc). apply Some_inj in Hd.
+  destruct tx; injection Hd as _ ->; reflexivity.
+Qed.
+
+(** A [KTuple] is canonical for [k] when its tag and [k] field are functions of its sequence. *)
+Definition kt_canonical (k : N) (x : ktuple) : Prop :=
+  exists L, kt_denote x = Some (a_complete k L, L, N.min (lenN L) k).
+
+(** results of [k_concat] are canonical (provided a [Complete] receiver really is
+    k-complete for this [k]) ... *)
+Theorem concat_canonical dbg x y tx Lx kx ty Ly ky k :
+  kt_denote x = Some (tx, Lx, kx) -> kt_denote y = Some (ty, Ly, ky) ->
+  kt_bits x = kt_bits y -> k <= MAX_K ->
+  (tx = true -> a_complete k Lx = true) ->
+  exists z, kt_k_concat dbg x y k = Ok z /\ kt_bits z = kt_bits x /\ kt_canonical k z.
+Proof.
+  intros Hx Hy Hbits Hk Htag.
+  destruct (denote_kt_k_concat dbg x y tx Lx kx ty Ly ky k Hx Hy Hbits Hk) as (z & Hz & Hb & Hd).
+  exists z. split; [assumption|]. split; [assumption|]. unfold kt_canonical.
+  destruct tx.
+  - exists Lx. rewrite Hd, Htag by reflexivity. reflexivity.
+  - exists (a_concat k Lx Ly). exact Hd.
+Qed.
+
+(** ... and canonical tuples of the same width are equal iff they denote the same sequence *)
+Theorem canonical_eq_iff_seq k x y Lx Ly :
+  kt_canonical k x -> kt_canonical k y -> kt_bits x = kt_bits y ->
+  kt_denote x = Some (a_complete k Lx, Lx, N.min (lenN Lx) k) ->
+  kt_denote y = Some (a_complete k Ly, Ly, N.min (lenN Ly) k) ->
+  (x = y <-> Lx = Ly).
+Proof.
+  intros _ _ Hb Hx Hy.
+  assert (Wx : kt_wf x).
+  { unfold kt_wf, ts_wf. unfold kt_denote, ts_denote in Hx.
+    destruct (denote (ts_inner (terminals x))) eqn:E; [|discriminate]. eapply denote_wf; eassumption. }
+  assert (Wy : kt_wf y).
+  { unfold kt_wf, ts_wf. unfold kt_denote, ts_denote in Hy.
+    destruct (denote (ts_inner (terminals y))) eqn:E; [|discriminate]. eapply denote_wf; eassumption. }
+  rewrite (ktuple_abstract x y Wx Wy Hb), Hx, Hy. split.
+  - intro H. apply Some_inj in H. congruence.
+  - intros ->. reflexivity.
+Qed.
+
+(** Observation O1: [KTuple] equality is NOT equality of the denoted sequences.  The epsilon
+    built by [KTupleBuilder::eps] with k = 3 and the epsilon that went through [k_concat]
+    (k field = k_len = 1) denote the same sequence, have the same tag and width, and differ. *)
+Theorem ktuple_eq_by_sequence_refuted :
+  exists x y tx L kx ky,
+    kt_eps true 3 1 = Ok x /\ kt_k_concat true x x 3 = Ok y /\
+    kt_denote x = Some (tx, L, kx) /\ kt_denote y = Some (tx, L, ky) /\
+    kt_bits x = kt_bits y /\ kt_eqb x y = false /\ x <> y.
+Proof.
+  destruct (kt_eps true 3 1) as [x|] eqn:Ex; [|vm_compute in Ex; discriminate].
+  destruct (kt_k_concat true x x 3) as [y|] eqn:Ey;
+    [|vm_compute in Ex; apply Ok_inj in Ex; subst x; vm_compute in Ey; discriminate].
+  exists x, y, false, [Eps], 3, 1.
+  vm_compute in Ex. apply Ok_inj in Ex. subst x.
+  vm_compute in Ey. apply Ok_inj in Ey. subst y.
+  repeat (split; [vm_compute; reflexivity|]).
+  intro H. apply kt_eqb_eq in H. vm_compute in H. discriminate.
+Qed.
+
+(** [TerminalString::push] / [KTuple::push] *)
+Theorem denote_kt_push dbg x tx L kx tm :
+  kt_denote x = Some (tx, L, kx) -> arg_ok (ts_inner (terminals x)) tm ->
+  if tx then kt_push dbg x tm = Ok (Some x)
+  else match a_push L (term_of (ts_inner (terminals x)) tm) with
+       | None => kt_push dbg x tm = Ok None
+       | Some L' => exists x', kt_push dbg x tm = Ok (Some x') /\ kt_bits x' = kt_bits x /\
+                               kt_denote x' = Some (a_complete kx L', L', kx)
+       end.
+Proof.
+  unfold kt_denote, ts_denote, kt_push, kt_bits. destruct x as [s n]. cbn [terminals kk].
+  intros H Harg.
+  destruct (denote (ts_inner s)) as [L0|] eqn:E; [|discriminate].
+  apply Some_inj in H.
+  assert (ts_tag s = tx /\ L0 = L /\ n = kx) as (Ht & -> & ->) by (repeat split; congruence).
+  destruct s as [p|p]; cbn [ts_tag ts_inner ts_push] in *; subst tx.
+  - pose proof (denote_push dbg p L tm E Harg) as Hp.
+    destruct (a_push L (term_of p tm)) as [L'|].
+    + destruct Hp as (p' & Hp' & _ & Hd & Hb). rewrite Hp'. cbn [bind].
+      destruct (ts_classify_denote p' L' kx Hd) as (s' & Hs & Hi & Htag).
+      rewrite Hs. cbn [bind]. eexists. split; [reflexivity|]. cbn [terminals kk].
+      rewrite Hi, Hd, Htag. split; [assumption | reflexivity].
+    + rewrite Hp. reflexivity.
+  - reflexivity.
+Qed.
+
+(** ** The precondition [k <= MAX_K] of [k_concat] is necessary (public API finding):
+    with k = 11 a 9-element and a 2-element tuple give a debug-assertion panic, and in a
+    release build an ill-formed value with length field 11. *)
+Definition get_ok (r : res packed) : packed := match r with Ok p => p | Panic => Packed 0 end.
+Definition ex_9 : packed := get_ok (do a <- new true 6; extend true a [1;2;3;4;5;6;1;2;3]).
+Definition ex_2 : packed := get_ok (do a <- new true 6; extend true a [4;5]).
+
+Theorem denote_k_concat_large_k_refuted :
+  exists a b k La Lb,
+    denote a = Some La /\ denote b = Some Lb /\ bits a = bits b /\ k = MAX_K + 1 /\
+    k_concat true a b k = Panic /\
+    exists c, k_concat false a b k = Ok c /\ wfb c = false /\ len c = 11.
+Proof.
+  exists ex_9, ex_2, 11, [Trm 1; Trm 2; Trm 3; Trm 4; Trm 5; Trm 6; Trm 1; Trm 2; Trm 3],
+         [Trm 4; Trm 5].
+  repeat (split; [vm_compute; reflexivity|]).
+  eexists. split; [vm_compute; reflexivity|]. split; vm_compute; reflexivity.
+Qed.
+
+(** with 12-bit slots and k = 20 the shifted payload reaches the metadata bits and elements
+    are lost/garbled: [.. 4000; 4001; ..] comes back as [.. 4000; 206; 0; 0; 0] *)
+Definition ex_9w : packed := get_ok (do a <- new true 4000; extend true a [1;2;3;4;5;6;1;2;3]).
+Definition ex_5w : packed :=
+  get_ok (do a <- new true 4000; extend true a [4000;4001;4002;4003;4004]).
+
+Theorem concat_no_overflow_large_k_refuted :
+  exists a b k, wf a /\ wf b /\ bits a = bits b /\ k = 20 /\
+    exists c, k_concat false a b k = Ok c /\ wfb c = false /\
+              iter c = [1;2;3;4;5;6;1;2;3;4000;206;0;0;0].
+Proof.
+  exists ex_9w, ex_5w, 20.
+  repeat (split; [vm_compute; reflexivity|]).
+  eexists. split; [vm_compute; reflexivity|]. split; vm_compute; reflexivity.
+Qed.
+
+(** ** Examples: the hypotheses of the theorems above are satisfiable *)
+Definition ex_a : packed := get_ok (do a <- new true 6; extend true a [1;2;3]).
+Definition ex_b : packed := get_ok (do a <- new true 6; extend true a [4;5;6]).
+Definition ex_e : packed := get_ok (eps true 6).
+
+Example ex_denote_a : denote ex_a = Some [Trm 1; Trm 2; Trm 3] /\ wf ex_a /\ bits ex_a = 3.
+Proof. repeat split; vm_compute; reflexivity. Qed.
+Example ex_denote_b : denote ex_b = Some [Trm 4; Trm 5; Trm 6] /\ wf ex_b /\ bits ex_a = bits ex_b.
+Proof. repeat split; vm_compute; reflexivity. Qed.
+Example ex_new_hyp : (6 <= 4094) /\ (2 ^ 3 - 2 = 6) /\ new true 6 = Ok (pk 3 []).
+Proof. repeat split; vm_compute; try reflexivity; discriminate. Qed.
+Example ex_arg_ok : arg_ok ex_a 4 /\ arg_ok ex_a EPS /\ Forall (arg_ok ex_a) [4; 0; 5].
+Proof.
+  assert (H : forall x, x <= 7 -> arg_ok ex_a x) by (intros x Hx; left; exact Hx).
+  split; [apply H; vm_compute; discriminate|]. split; [right; reflexivity|].
+  apply Forall_forall. intros x [<-|[<-|[<-|[]]]]; apply H; vm_compute; discriminate.
+Qed.
+Example ex_push :
+  exists p', push true ex_a 4 = Ok (Some p') /\ denote p' = Some [Trm 1; Trm 2; Trm 3; Trm 4].
+Proof. eexists. split; [vm_compute; reflexivity | vm_compute; reflexivity]. Qed.
+Example ex_k_concat_hyp :
+  denote ex_a = Some [Trm 1; Trm 2; Trm 3] /\ denote ex_b = Some [Trm 4; Trm 5; Trm 6] /\
+  bits ex_a = bits ex_b /\ 5 <= MAX_K /\
+  a_concat 5 [Trm 1; Trm 2; Trm 3] [Trm 4; Trm 5; Trm 6] = [Trm 1; Trm 2; Trm 3; Trm 4; Trm 5] /\
+  exists c, k_concat true ex_a ex_b 5 = Ok c /\
+            denote c = Some [Trm 1; Trm 2; Trm 3; Trm 4; Trm 5].
+Proof.
+  repeat (split; [vm_compute; try reflexivity; discriminate|]).
+  eexists. split; [vm_compute; reflexivity | vm_compute; reflexivity].
+Qed.
+Example ex_concat_no_overflow_hyp :
+  a_is_eps [Trm 1; Trm 2; Trm 3] = false /\ a_complete 5 [Trm 1; Trm 2; Trm 3] = false /\
+  a_is_eps [Trm 4; Trm 5; Trm 6] = false /\ [Trm 4; Trm 5; Trm 6] <> [].
+Proof. repeat split; try (vm_compute; reflexivity). discriminate. Qed.
+Example ex_eps_concat :
+  denote ex_e = Some [Eps] /\
+  exists c, k_concat true ex_e ex_b 2 = Ok c /\ denote c = Some [Trm 4; Trm 5] /\
+            a_concat 2 [Eps] [Trm 4; Trm 5; Trm 6] = [Trm 4; Trm 5].
+Proof.
+  split; [vm_compute; reflexivity|]. eexists.
+  split; [vm_compute; reflexivity|]. split; vm_compute; reflexivity.
+Qed.
+Example ex_cmp :
+  cmp ex_a ex_b = Ok Lt /\ seq_cmp (mask ex_a) [Trm 1; Trm 2; Trm 3] [Trm 4; Trm 5; Trm 6] = Lt /\
+  cmp ex_e ex_a = Ok Lt /\ wf ex_e.
+Proof. repeat split; vm_compute; reflexivity. Qed.
+Example ex_cmp_colex :
+  (* [3;1] < [1;2] although 3 > 1: the last element decides *)
+  (do a <- new true 6; do x <- extend true a [3;1]; do y <- extend true a [1;2]; cmp x y)
+  = Ok Lt.
+Proof. vm_compute. reflexivity. Qed.
+Example ex_eps_never_hyp : exists p, new true 6 = Ok p /\ mask p = 7 /\ 6 < mask p.
+Proof.
+  eexists. split; [vm_compute; reflexivity|]. split; vm_compute; reflexivity.
+Qed.
+Example ex_kt :
+  exists x y, kt_eps true 3 6 = Ok x /\ kt_of true ex_b 3 = Ok y /\
+    kt_denote x = Some (false, [Eps], 3) /\
+    kt_denote y = Some (true, [Trm 4; Trm 5; Trm 6], 3) /\ kt_bits x = kt_bits y /\
+    exists z, kt_k_concat true x y 3 = Ok z /\
+              kt_denote z = Some (true, [Trm 4; Trm 5; Trm 6], 3) /\ kt_canonical 3 z.
+Proof.
+  eexists. eexists. repeat (split; [vm_compute; reflexivity|]).
+  eexists. split; [vm_compute; reflexivity|]. split; [vm_compute; reflexivity|].
+  exists [Trm 4; Trm 5; Trm 6]. vm_compute. reflexivity.
+Qed.
+Example ex_kt_push :
+  exists x, kt_of true ex_a 5 = Ok x /\ kt_denote x = Some (false, [Trm 1; Trm 2; Trm 3], 5) /\
+            arg_ok (ts_inner (terminals x)) 4.
+Proof.
+  eexists. split; [vm_compute; reflexivity|]. split; [vm_compute; reflexivity|].
+  left. vm_compute. discriminate.
+Qed.
+
+Print Assumptions wf_new.
+Print Assumptions new_ok_iff.
+Print Assumptions denote_eps.
+Print Assumptions denote_end.
+Print Assumptions denote_push.
+Print Assumptions denote_extend.
+Print Assumptions denote_of.
+Print Assumptions denote_k_concat.
+Print Assumptions denote_get.
+Print Assumptions denote_last.
+Print Assumptions denote_iter.
+Print Assumptions denote_len.
+Print Assumptions denote_k_len.
+Print Assumptions denote_is_eps.
+Print Assumptions denote_is_k_complete.
+Print Assumptions denote_clear.
+Print Assumptions eq_iff_denote.
+Print Assumptions cmp_spec.
+Print Assumptions cmp_total_order.
+Print Assumptions eps_never_a_terminal.
+Print Assumptions new_boundary_lo.
+Print Assumptions new_boundary_hi.
+Print Assumptions new_boundary_4095.
+Print Assumptions concat_no_overflow.
+Print Assumptions ktuple_abstract.
+Print Assumptions denote_kt_k_concat.
+Print Assumptions concat_canonical.
+Print Assumptions canonical_eq_iff_seq.
+Print Assumptions ktuple_eq_by_sequence_refuted.
+Print Assumptions denote_kt_push.
+Print Assumptions denote_kt_of.
+Print Assumptions denote_k_concat_large_k_refuted.
+Print Assumptions concat_no_overflow_large_k_refuted.
+Print Assumptions ex_kt.
